@@ -74,13 +74,13 @@ HIST = ["?names = ...$1.dag.sorted_variables_by_type[IndividualLatentVariable]..
         "?a.append(?st.get_tensor_value('nll_attach_ind'))", "?r.append(?st.get_tensor_value('nll_regul_ind_sum_ind'))"]
 
 
-def r2_burn_in(ctx):
-    ctx.rule("C17.R2", "histories appended only after burn-in, all three at every kept iteration", 3)
-    g = ctx.ix.func(MC, "McmcPersonalizeAlgorithm._get_individual_parameters", "C17.R2")
+def r2_burn_in(ctx, rid="C17.R2", title="histories appended only after burn-in, all three at every kept iteration"):
+    ctx.rule(rid, title, 3)
+    g = ctx.ix.func(MC, "McmcPersonalizeAlgorithm._get_individual_parameters", rid)
     cfg = CFG(g.node)
     apps = [(n, c) for n, st in cfg.stmt.items() if st is not None for c in header_walk(st) if isinstance(c, ast.Call) and isinstance(c.func, ast.Attribute) and c.func.attr == "append"]
     if len(apps) < 3:
-        ctx.violation("C17.R2", g, g.node, f"only {len(apps)} history append(s) found (values, attachments, regularities expected)", construct="def _get_individual_parameters")
+        ctx.violation(rid, g, g.node, f"only {len(apps)} history append(s) found (values, attachments, regularities expected)", construct="def _get_individual_parameters")
         return
     guard_nodes = set()
     for n, c in apps:
@@ -90,18 +90,23 @@ def r2_burn_in(ctx):
             if (t == "not self._is_burn_in()" and lab) or (t == "self._is_burn_in()" and not lab):
                 ok = True
                 guard_nodes.add((h, lab))
-        ctx.check(ok, "C17.R2", g, c, "kept only when not in burn-in", f"`{U(c)[:60]}` also records burn-in iterations: the returned mean / best draw includes samples taken before convergence")
-    ctx.check(len(guard_nodes) == 1, "C17.R2", g, g.node, "all histories appended under the same test (equal lengths)", "the histories are appended under different tests: their lengths can differ",
+        part = [U(cfg.stmt[h].test) for h, lab in cfg.if_guards(n) if "_is_burn_in()" in U(cfg.stmt[h].test)]
+        if not ok and part:
+            ctx.violation(rid, g, c, f"`{U(c)[:50]}` is recorded under `{part[0][:90]}`: whether a draw is kept depends on more than the iteration count (e.g. on the state of the whole cohort), "
+                          "so the samples averaged for one subject depend on the other subjects' chains")
+        else:
+            ctx.check(ok, rid, g, c, "kept only when not in burn-in", f"`{U(c)[:60]}` also records burn-in iterations: the returned mean / best draw includes samples taken before convergence")
+    ctx.check(len(guard_nodes) == 1, rid, g, g.node, "all histories appended under the same test (equal lengths)", "the histories are appended under different tests: their lengths can differ",
               construct="same guard for all histories")
     # what is appended
     gl = Canon(g.node).lines(False, True)
     ok = unify(gl, HIST) is not None
-    ctx.check(ok, "C17.R2", g, g.node, "per-individual attachment, total individual regularity and every individual variable are recorded",
+    ctx.check(ok, rid, g, g.node, "per-individual attachment, total individual regularity and every individual variable are recorded",
               "the recorded quantities are no longer (each individual variable, nll_attach_ind, nll_regul_ind_sum_ind)", construct="recorded quantities")
     # the sampling step precedes the recording in each iteration
     samples = [n for n, st in cfg.stmt.items() if st is not None and any(isinstance(c, ast.Call) and isinstance(c.func, ast.Attribute) and c.func.attr == "sample" for c in header_walk(st))]
     ok = bool(samples) and all(cfg.stmt[s].lineno < cfg.stmt[n].lineno for s in samples for n, _ in apps)
-    ctx.check(ok, "C17.R2", g, g.node, "values recorded after the iteration's sampling sweep", "values are recorded before the sampling sweep of the iteration", construct="record after sampling")
+    ctx.check(ok, rid, g, g.node, "values recorded after the iteration's sampling sweep", "values are recorded before the sampling sweep of the iteration", construct="record after sampling")
 
 
 def r3_axes(ctx):
